@@ -30,11 +30,28 @@ type fragReader struct {
 	unit int // if >0: uniform reads of at most unit bytes
 	read int
 	eofData bool // the Read that returns the last bytes also returns io.EOF (n > 0 with err != nil)
+	// empty: before the first byte and at every cut the source answers one Read with (0, nil) - what
+	// io.Reader permits and e.g. net.Pipe produces for a zero-length Write
+	empty   bool
+	emptied map[int]bool
 }
 
 func (r *fragReader) Read(p []byte) (int, error) {
 	if r.pos >= len(r.data) {
 		return 0, io.EOF
+	}
+	if r.empty && !r.emptied[r.pos] {
+		atCut := r.pos == 0
+		for _, c := range r.cuts {
+			atCut = atCut || c == r.pos
+		}
+		if atCut {
+			if r.emptied == nil {
+				r.emptied = map[int]bool{}
+			}
+			r.emptied[r.pos] = true
+			return 0, nil
+		}
 	}
 	end := len(r.data)
 	if r.unit > 0 {
@@ -80,6 +97,8 @@ type C05Case struct {
 	// MBL: the exported tuning variable diam.MessageBufferLength is set to MBL[i] before message i
 	// is read (the pooled read buffers of earlier reads stay in the pool)
 	MBL []int
+	// Empty: the source answers one Read with (0, nil) before the first byte and at every cut
+	Empty bool `json:",omitempty"`
 }
 
 func (c C05Case) Desc() string {
@@ -88,6 +107,9 @@ func (c C05Case) Desc() string {
 	}
 	if len(c.MBL) > 0 {
 		return fmt.Sprintf("bodies=%v bufio=%v, diam.MessageBufferLength set to %v before the respective read", c.Sizes, c.Buffered, c.MBL)
+	}
+	if c.Empty {
+		return fmt.Sprintf("bodies=%v cuts=%v bufio=%v trunc=%d, one empty read (0, nil) before the first byte and at every cut", c.Sizes, c.Cuts, c.Buffered, c.Trunc)
 	}
 	if c.EOFData {
 		return fmt.Sprintf("bodies=%v cuts=%v unit=%d bufio=%v trunc=%d badlen=%d, io.EOF returned together with the last bytes", c.Sizes, c.Cuts, c.Unit, c.Buffered, c.Trunc, c.BadLen)
@@ -152,7 +174,7 @@ func c05Eval(cs C05Case) string {
 	return safely(func() string {
 		full, _ := cs.stream()
 		want, tail := refcodec.SplitStream(full)
-		fr := &fragReader{data: full, cuts: cs.Cuts, unit: cs.Unit, eofData: cs.EOFData}
+		fr := &fragReader{data: full, cuts: cs.Cuts, unit: cs.Unit, eofData: cs.EOFData, empty: cs.Empty}
 		var src io.Reader = fr
 		var br *bufio.Reader
 		if cs.Buffered {
@@ -437,6 +459,9 @@ func c05Enum(ctx *ev.Ctx, fn func(C05Case)) string {
 			e := base
 			e.EOFData = true
 			emit(e)
+			e = base
+			e.Empty = true
+			emit(e)
 			// all cut vectors with <= cutCap cuts over the offsets
 			var rec func(start int, cur []int)
 			rec = func(start int, cur []int) {
@@ -446,6 +471,11 @@ func c05Enum(ctx *ev.Ctx, fn func(C05Case)) string {
 					emit(c)
 					if len(cur) == 1 {
 						c.EOFData = true
+						emit(c)
+					}
+					if len(cur) <= 2 {
+						c.EOFData = false
+						c.Empty = true
 						emit(c)
 					}
 				}
@@ -497,7 +527,7 @@ func c05Enum(ctx *ev.Ctx, fn func(C05Case)) string {
 			}
 		}
 	}
-	return "all sequences of <=3 messages over body sizes {0,8,1016,1024,1028,4100,70000}; read through a scripted io.Reader and through bufio.NewReader on top of it; all cut vectors with <=2 (thorough 3) cuts - every offset for streams <=200 bytes, otherwise every offset within +-3 (thorough: +-24 for single messages) of a message border, header/body border, 1 KiB and 4 KiB boundary (quick: three large messages or more than 120 candidate offsets: <=1 cut; thorough: 3 cuts where the candidate set has <=70 offsets and no 70 000-byte message is involved, otherwise 2, and 1 for three messages including the 70 000-byte one); uniform 1..40-byte readers; truncation at every such offset (plain, 7-byte reads, and with one earlier cut for short streams); a header declaring each length 0..19 followed by 40 more bytes after every sequence of <=2 messages and as the first header. and messages whose last AVP declares 1..2000 bytes more than the (truthful) message holds, between two other messages: rejected, following message still read at its offset.; every message of the uncut cases also read from a source of its own overlapping with a read from another source after an oversize message; the base and single-cut cases also with a source that returns io.EOF together with the last bytes; sequences of <=3 messages with bodies from {9, 29, 1017, 1023, 8, 1024} containing at least one whose declared length is not a multiple of four (last AVP sent unpadded); all histories of <=3 reads over bodies {8,600,1016,2036,5000} with diam.MessageBufferLength set to one of {1024,4096,512} before each read. Distinct by (sizes, cuts, unit, bufio, truncation, bad length, overstatement, EOF mode, buffer lengths)."
+	return "all sequences of <=3 messages over body sizes {0,8,1016,1024,1028,4100,70000}; read through a scripted io.Reader and through bufio.NewReader on top of it; all cut vectors with <=2 (thorough 3) cuts - every offset for streams <=200 bytes, otherwise every offset within +-3 (thorough: +-24 for single messages) of a message border, header/body border, 1 KiB and 4 KiB boundary (quick: three large messages or more than 120 candidate offsets: <=1 cut; thorough: 3 cuts where the candidate set has <=70 offsets and no 70 000-byte message is involved, otherwise 2, and 1 for three messages including the 70 000-byte one); uniform 1..40-byte readers; truncation at every such offset (plain, 7-byte reads, and with one earlier cut for short streams); a header declaring each length 0..19 followed by 40 more bytes after every sequence of <=2 messages and as the first header. and messages whose last AVP declares 1..2000 bytes more than the (truthful) message holds, between two other messages: rejected, following message still read at its offset.; every message of the uncut cases also read from a source of its own overlapping with a read from another source after an oversize message; the base and single-cut cases also with a source that returns io.EOF together with the last bytes; the base, single-cut and two-cut cases also with a source that answers one Read with (0, nil) before the first byte and at every cut; sequences of <=3 messages with bodies from {9, 29, 1017, 1023, 8, 1024} containing at least one whose declared length is not a multiple of four (last AVP sent unpadded); all histories of <=3 reads over bodies {8,600,1016,2036,5000} with diam.MessageBufferLength set to one of {1024,4096,512} before each read. Distinct by (sizes, cuts, unit, bufio, truncation, bad length, overstatement, EOF mode, empty reads, buffer lengths)."
 }
 
 func runC05(ctx *ev.Ctx) {
